@@ -13,3 +13,12 @@ def c03_target_not_schema(what, case):
     crash is the attribute/type error of treating the value as a schema"""
     return (what == "outcome:reference_target_not_a_schema"
             and all(c.rsplit(":", 1)[1] in ("AttributeError", "TypeError") for c in case.get("crashes", [])))
+
+
+def c02_nonhierarchical_base(what, case):
+    """F10: the base URI in effect has a scheme urljoin does not treat as hierarchical (urn:, tag:): a same-document
+    reference "#/..." is returned unresolved and retrieval of '' fails with RefResolutionError"""
+    sch = case.get("schema_with_references") or {}
+    base = sch.get("$id", sch.get("id", "")) if isinstance(sch, dict) else ""
+    return (what == "unresolved" and isinstance(base, str) and base.split(":", 1)[0] in ("urn", "tag")
+            and str(case.get("observed", "")).startswith("RefResolutionError"))
